@@ -280,6 +280,45 @@ def _fix_facts(X):
     return clash, dup
 
 
+def _module_name_table(X) -> list[str]:
+    """Characters `_module_name_from_path` maps to "_" in every path part: the chain of `.replace(<c>, "_")` calls in
+    `path_parts = tuple(<chain on x> for x in path_parts)`; also checks the join with "." ."""
+    E = X.ExtractError
+    fn = X._func(X._parse("path.py"), "_module_name_from_path")
+    table = None
+    for n in ast.walk(fn):
+        if (isinstance(n, ast.Assign) and ast.unparse(n.targets[0]) == "path_parts" and isinstance(n.value, ast.Call)
+                and ast.unparse(n.value.func) == "tuple" and len(n.value.args) == 1 and isinstance(n.value.args[0], ast.GeneratorExp)):
+            g = n.value.args[0]
+            if len(g.generators) != 1 or ast.unparse(g.generators[0].iter) != "path_parts" or g.generators[0].ifs:
+                raise E(f"_module_name_from_path: unrecognised normalisation {ast.unparse(n.value)}")
+            var = ast.unparse(g.generators[0].target)
+            e = g.elt
+            chars = []
+            while isinstance(e, ast.Call):
+                if not (isinstance(e.func, ast.Attribute) and e.func.attr == "replace" and len(e.args) == 2 and not e.keywords
+                        and all(isinstance(a, ast.Constant) and isinstance(a.value, str) for a in e.args)):
+                    raise E(f"_module_name_from_path: unrecognised normalisation step {ast.unparse(e)}")
+                src, dst = e.args[0].value, e.args[1].value
+                if len(src) != 1 or dst != "_":
+                    raise E(f"_module_name_from_path: replace({src!r}, {dst!r}) is not a single character to '_'")
+                chars.insert(0, src)
+                e = e.func.value
+            if ast.unparse(e) != var:
+                raise E(f"_module_name_from_path: normalisation does not start from the part: {ast.unparse(g.elt)}")
+            if table is not None:
+                raise E("_module_name_from_path: more than one normalisation statement")
+            table = chars
+    if table is None:
+        raise E("_module_name_from_path: normalisation of path parts not found")
+    if "_" in table:
+        raise E("_module_name_from_path: '_' is itself replaced")
+    rets = [ast.unparse(n.value) for n in ast.walk(fn) if isinstance(n, ast.Return) and n.value is not None]
+    if rets != ["'.'.join(path_parts)"]:
+        raise E(f"_module_name_from_path: return changed: {rets}")
+    return table
+
+
 def collect_section() -> list[str]:
     X = _api()
     E = X.ExtractError
@@ -307,6 +346,9 @@ def collect_section() -> list[str]:
     L.append(f"def idScalarTypes : List String := {X.lean_list(tys, s)}")
     L.append(f"def shortNameLo : Nat := {lo}")
     L.append(f"def shortNameHi : Nat := {hi}")
+    table = _module_name_table(X)
+    L.append("/-- characters `_module_name_from_path` replaces by `_` in every part of a path-derived module name. -/")
+    L.append("def moduleNameNormalised : List Char := " + X.lean_list(table, lambda c: "'\\''" if c == "'" else ("'\\\\'" if c == "\\" else f"'{c}'")))
     clash, dup = _fix_facts(X)
     L.append("/-- `parse_collected_tasks_with_task_marker` raises when a new name/id is already a key (fix of F8a). -/")
     L.append(f"def parseClashCheck : Bool := {X.lean_bool(clash)}")
